@@ -63,10 +63,10 @@ PROPS = {
                 oracles=['wellformed'], pyref=True,
                 filt=lambda k, o: not (k == 'R' and o in (ROOT_OPS | EQ_OPS | SSZ_OPS | SERDE_OPS | BUILDER_OPS)),
                 key=lambda ops: True),
-    'C02': dict(fams=['crud', 'versions', 'rebase_pairs', 'intra', 'suffix', 'capacity', 'big', 'deep', 'hash_placement', 'fault'],
+    'C02': dict(fams=['crud', 'versions', 'rebase_pairs', 'intra', 'suffix', 'capacity', 'big', 'deep', 'hash_placement', 'fault', 'par'],
                 views=['obs'], oracles=[], pyref=True, filt=lambda k, o: k == 'R' and o in ROOT_OPS,
                 key=lambda ops: any(o.startswith('hash') for o in ops)),
-    'C03': dict(fams=['hash_placement', 'rebase_pairs', 'intra', 'versions', 'crud', 'fault'], views=['obs', 'memo'],
+    'C03': dict(fams=['hash_placement', 'rebase_pairs', 'intra', 'versions', 'crud', 'fault', 'par'], views=['obs', 'memo'],
                 oracles=['memo'], pyref=True, filt=lambda k, o: k == 'R' and o in ROOT_OPS, twin='hash',
                 key=lambda ops: sum(o.startswith('hash') for o in ops) >= 2),
     'C04': dict(fams=['versions', 'rebase_pairs', 'hash_placement', 'intra'], views=['obs'], oracles=['isolation', 'memo'],
@@ -409,6 +409,18 @@ def pyref_findings(prop, text, trace):
     if spec.get('par_only'):
         # C16: a parallel result that differs from the reference counts only when the sequential root computations
         # of the same history are right (otherwise hashing as such is broken: C02's business)
+        opsl = [l for l in text.splitlines()[1:] if l and not l.startswith('#')]
+        ff = next((k + 1 for k, o in enumerate(opsl) if o.startswith('fault ')), None)
+        if ff is not None:
+            # fault histories: an abandoned root computation must not poison later ones. Roots that are wrong
+            # after the first fault count, unless hashing was already wrong before it (then it is C02's business)
+            if any(m.op < ff for m in mm if (m.op_text or '').split()[:1] == ['hash']):
+                return out
+            for m in mm:
+                if m.op > ff and (m.op_text or '').split()[:1] and (m.op_text or '').split()[0] in ROOT_OPS and not (m.actual or '').endswith(' fault'):
+                    out.append(oracles.Finding(m.op, 'after an abandoned root computation `%s` answers `%s`, expected `%s`' % (m.op_text, (m.actual or '')[:120], (m.predicted or '')[:120])))
+                    break
+            return out
         seq_bad = any((m.op_text or '').split()[:1] == ['hash'] for m in mm)
         if seq_bad:
             return out
